@@ -98,7 +98,7 @@ Print Assumptions C07_side_curve_unchanged.
 Theorem C07_running_minimum_forms_agree :
   forall d (a : pt) rest x, mono d tol (a :: rest) -> in_range d (a :: rest) x ->
   rmw d (snd a) (a :: rest) x == qmin_list (plw d (a :: rest) x) (vals_w d x (a :: rest)).
-Proof. intros d a rest x. apply (rmw_runmin d tol a rest x). apply Qlt_le_weak. exact tol_pos. Qed.
+Proof. intros d a rest x. exact (rmw_runmin d tol a rest x (Qlt_le_weak _ _ tol_pos)). Qed.
 Print Assumptions C07_running_minimum_forms_agree.
 
 (* THE SPECIFICATION IS THE GREATEST MONOTONE CURVE UNDER THE GCC (title of the property), on any curve with strictly
@@ -112,12 +112,7 @@ Theorem C07_spec_above_is_greatest_monotone_under_gcc :
   /\ (forall (g : Q -> Q) x, (forall u v, u <= v -> g u <= g v) ->
        (forall u, last Ts 0 <= u <= hd 0 Ts -> g u <= gcc_at Ts Hs u) ->
        last Ts 0 <= x <= hd 0 Ts -> g x <= runmin_above Ts Hs x).
-Proof.
-  intros Ts Hs E H. split; [|split].
-  - exact (runmin_above_lower_bound tol Ts Hs (Qlt_le_weak _ _ tol_pos) E H).
-  - exact (runmin_above_monotone tol Ts Hs (Qlt_le_weak _ _ tol_pos) E H).
-  - exact (runmin_above_greatest tol Ts Hs (Qlt_le_weak _ _ tol_pos) E H).
-Qed.
+Proof. exact (greatest_above tol (Qlt_le_weak _ _ tol_pos)). Qed.
 Print Assumptions C07_spec_above_is_greatest_monotone_under_gcc.
 
 Theorem C07_spec_below_is_greatest_monotone_under_gcc :
@@ -126,11 +121,7 @@ Theorem C07_spec_below_is_greatest_monotone_under_gcc :
   /\ (forall (g : Q -> Q) x, (forall u v, u <= v -> g v <= g u) ->
        (forall u, last Ts 0 <= u <= hd 0 Ts -> g u <= gcc_at Ts Hs u) ->
        last Ts 0 <= x <= hd 0 Ts -> g x <= runmin_below Ts Hs x).
-Proof.
-  intros Ts Hs E H. split.
-  - exact (runmin_below_lower_bound tol Ts Hs (Qlt_le_weak _ _ tol_pos) E H).
-  - exact (runmin_below_greatest tol Ts Hs (Qlt_le_weak _ _ tol_pos) E H).
-Qed.
+Proof. exact (greatest_below tol (Qlt_le_weak _ _ tol_pos)). Qed.
 Print Assumptions C07_spec_below_is_greatest_monotone_under_gcc.
 
 (* profiles_monotone: both load profiles are monotone, for EVERY input column *)
@@ -168,7 +159,7 @@ Proof. exact d2_model. Qed.
 Print Assumptions C07_D2_model_table.
 
 Theorem C07_predicate_holds_on_examples : model_ok d2_T d2_H = true /\ model_ok ex2_T ex2_H = true.
-Proof. split; [exact d2_predicate|exact (proj2 (proj2 ex2_robust))]. Qed.
+Proof. exact examples_predicate. Qed.
 Print Assumptions C07_predicate_holds_on_examples.
 
 Theorem C07_robust_is_a_real_restriction : robust_b tol [30; 20; 10] [5; (50000001 # 10000000); 0] = false.
